@@ -866,6 +866,9 @@ def emit_tu(tu, seed, variants=(0, 1, 2, 3, 4, 5)):
         out.append("static constexpr signed char MON_KINDS[] = { %s };" % ", ".join(str(k) for k in ks))
         out.append("static constexpr signed char MON_KINDS_B[] = { %s };" % ", ".join(str(k) for k in kb))
         out.append("#endif")
+    rm = random.Random(seed * 41 + 7)
+    mif = [('"must_if message %d"' % vid) if rm.random() < 0.2 else "nullptr" for (vid, cpp, custom) in tu.regs]
+    out.append("static constexpr const char* MON_MIF[] = { %s };" % ", ".join(mif))
     out.append("#ifndef MON_SELV")
     out.append("#define MON_SELV 0")
     out.append("#endif")
@@ -885,7 +888,7 @@ def emit_tu(tu, seed, variants=(0, 1, 2, 3, 4, 5)):
     out.append("static const mon::grammar GS[] = {")
     for g in tu.grammars:
         salt = rnd.randrange(1 << 30)
-        out.append('  { "%s", "%s", "%s", "%s", "%s", %s::nodes, sizeof( %s::nodes ) / sizeof( %s::nodes[ 0 ] ), %d, "%s", %d, "%s", MON_KINDS, MON_KINDS_B, MON_SELS, %du, %du, &mon::run_entry< %s >, MON_ANALYZE_ENTRY( %s ) },'
+        out.append('  { "%s", "%s", "%s", "%s", "%s", %s::nodes, sizeof( %s::nodes ) / sizeof( %s::nodes[ 0 ] ), %d, "%s", %d, "%s", MON_KINDS, MON_KINDS_B, MON_MIF, MON_SELS, %du, %du, &mon::run_entry< %s >, MON_ANALYZE_ENTRY( %s ) },'
                    % (g.gname, cstr(g.text()), g.profile, cstr(g.cell), g.prop, g.gname, g.gname, g.gname, g.top, cstr(g.alphabet), len(g.alphabet), cstr(g.prefixes), salt, g.features, g.names[-1], g.names[-1]))
     out.append("};")
     out.append("int main( int argc, char** argv ) {")
